@@ -1,7 +1,173 @@
 import PydlVerif.Model.JsonUtil
+import PydlVerif.Model.Solvers
 open Lean
 namespace PydlVerif.Driver.C15
+open PydlVerif PydlVerif.Solvers
 
-def handle (_j : Json) : Except String Json := throw "C15: no model operations yet"
+/-! Float instantiations of the kernel parameters of the model (independent of LAPACK):
+Gaussian elimination with partial pivoting, cyclic Jacobi for symmetric matrices,
+SVD of a symmetric positive semi-definite matrix through Jacobi, insertion argsort. -/
+
+def solveGE (A : Mat Float) (b : Vec Float) : Vec Float := Id.run do
+  let n := b.size
+  let mut M := A
+  let mut r := b
+  for c in [0:n] do
+    let mut p := c
+    for i in [c+1:n] do
+      if (M[i]![c]!).abs > (M[p]![c]!).abs then p := i
+    if p != c then
+      let t := M[c]!
+      M := M.set! c M[p]!
+      M := M.set! p t
+      let tb := r[c]!
+      r := r.set! c r[p]!
+      r := r.set! p tb
+    let piv := M[c]![c]!
+    let rowc := M[c]!
+    for i in [c+1:n] do
+      let f := M[i]![c]! / piv
+      let mut rowi := M[i]!
+      for j in [c:n] do
+        rowi := rowi.set! j (rowi[j]! - f * rowc[j]!)
+      M := M.set! i rowi
+      r := r.set! i (r[i]! - f * r[c]!)
+  let mut x : Array Float := Array.replicate n 0.0
+  for c' in [0:n] do
+    let c := n - 1 - c'
+    let mut s := r[c]!
+    for j in [c+1:n] do
+      s := s - M[c]![j]! * x[j]!
+    x := x.set! c (s / M[c]![c]!)
+  return x
+
+def argsortF (v : Vec Float) : Array Nat := Id.run do
+  let mut idx : Array Nat := Array.range v.size
+  for i in [1:v.size] do
+    let mut j := i
+    while j > 0 && v[idx[j-1]!]! > v[idx[j]!]! do
+      let t := idx[j]!
+      idx := idx.set! j idx[j-1]!
+      idx := idx.set! (j-1) t
+      j := j - 1
+  return idx
+
+/-- cyclic Jacobi; eigenvalues ascending, eigenvectors as columns (the convention of `eigh`) -/
+def jacobi (A0 : Mat Float) : Eig Float := Id.run do
+  let n := A0.size
+  let mut A := A0
+  let mut V : Mat Float := Array.ofFn (n := n) fun i => Array.ofFn (n := n) fun j => if i.val = j.val then 1.0 else 0.0
+  for _ in [0:100] do
+    let mut off := 0.0
+    let mut dia := 0.0
+    for p in [0:n] do
+      dia := dia + A[p]![p]! * A[p]![p]!
+      for q in [p+1:n] do
+        off := off + A[p]![q]! * A[p]![q]!
+    if off <= 1e-40 * dia || off == 0.0 then break
+    for p in [0:n] do
+      for q in [p+1:n] do
+        let apq := A[p]![q]!
+        if apq != 0.0 then
+          let theta := (A[q]![q]! - A[p]![p]!) / (2.0 * apq)
+          let t := (if theta >= 0.0 then 1.0 else -1.0) / (theta.abs + Float.sqrt (theta * theta + 1.0))
+          let c := 1.0 / Float.sqrt (t * t + 1.0)
+          let s := t * c
+          for k in [0:n] do
+            let akp := A[k]![p]!
+            let akq := A[k]![q]!
+            A := A.modify k fun row => (row.set! p (c * akp - s * akq)).set! q (s * akp + c * akq)
+          let rp := A[p]!
+          let rq := A[q]!
+          A := A.set! p (Array.ofFn (n := n) fun k => c * rp[k.val]! - s * rq[k.val]!)
+          A := A.set! q (Array.ofFn (n := n) fun k => s * rp[k.val]! + c * rq[k.val]!)
+          for k in [0:n] do
+            let vkp := V[k]![p]!
+            let vkq := V[k]![q]!
+            V := V.modify k fun row => (row.set! p (c * vkp - s * vkq)).set! q (s * vkp + c * vkq)
+  let ev : Vec Float := Array.ofFn (n := n) fun i => A[i.val]![i.val]!
+  let idx := argsortF ev
+  return { evals := Array.ofFn (n := n) fun j => ev[idx[j.val]!]!,
+           evecs := Array.ofFn (n := n) fun i => Array.ofFn (n := n) fun j => V[i.val]![idx[j.val]!]! }
+
+/-- SVD of a symmetric positive semi-definite matrix: singular values descending, `uu = vvᵀ` -/
+def svdSym (A : Mat Float) : Svd Float :=
+  let e := jacobi A
+  let n := A.size
+  { uu := Array.ofFn (n := n) fun i => Array.ofFn (n := n) fun j => e.evecs[i.val]![n - 1 - j.val]!,
+    ww := Array.ofFn (n := n) fun j => e.evals[n - 1 - j.val]!,
+    vv := Array.ofFn (n := n) fun i => Array.ofFn (n := n) fun j => e.evecs[j.val]![n - 1 - i.val]! }
+
+/-! JSON helpers -/
+def vecJ (v : Vec Float) : Json := J.ofArray J.ofFloat v
+def matJ (m : Mat Float) : Json := J.ofArray vecJ m
+def fVec (j : Json) (k : String) : Except String (Vec Float) := J.fFloats j k
+def fMat (j : Json) (k : String) : Except String (Mat Float) := do J.array (J.array J.float) (← J.fld j k)
+def fn1 (v : Vec Float) : Nat → Float := fun i => v[i]!
+def fn2 (m : Mat Float) : Nat → Nat → Float := fun i j => (m[i]!)[j]!
+
+def handle (j : Json) : Except String Json := do
+  let op ← J.fStr j "op"
+  match op with
+  | "chi2" =>
+    let n ← J.fNat j "n"
+    let m ← J.fNat j "m"
+    let b ← fVec j "b"
+    let sq ← fVec j "sq"
+    let A ← fMat j "A"
+    let r := computechi2 svdSym n m (fn1 b) (fn1 sq) (fn2 A)
+    pure (Json.mkObj [("acoeff", vecJ r.acoeff), ("chi2", J.ofFloat r.chi2), ("yfit", vecJ r.yfit),
+      ("dof", J.ofInt r.dof), ("covar", matJ r.covar), ("var", vecJ r.var), ("mmi", matJ r.mmi)])
+  | "pcomp" =>
+    let no ← J.fNat j "no"
+    let nv ← J.fNat j "nv"
+    let x ← fMat j "x"
+    let st ← J.fBool j "standardize"
+    let cv ← J.fBool j "covariance"
+    let r := pcomp Float.sqrt jacobi argsortF no nv (fn2 x) st cv
+    pure (Json.mkObj [("coefficients", matJ r.coefficients), ("derived", matJ r.derived),
+      ("variance", vecJ r.variance), ("eigenvalues", vecJ r.evals), ("c", matJ r.c)])
+  | "hmf_step" =>
+    let N ← J.fNat j "N"
+    let M ← J.fNat j "M"
+    let K ← J.fNat j "K"
+    let s ← fMat j "s"
+    let w ← fMat j "w"
+    let a ← fMat j "a"
+    let g ← fMat j "g"
+    let eps ← J.fOpt J.float j "eps"
+    let (ra, rg) := reorder jacobi N M K (fn2 a) (fn2 g)
+    pure (Json.mkObj [
+      ("astep", matJ (astep solveGE N M K (fn2 s) (fn2 w) (fn2 g))),
+      ("gstep", matJ (gstep solveGE N M K (fn2 s) (fn2 w) (fn2 a) (fn2 g) eps)),
+      ("astepnn", matJ (astepnn N M K (fn2 s) (fn2 w) (fn2 a) (fn2 g))),
+      ("gstepnn", matJ (gstepnn N M K (fn2 s) (fn2 w) (fn2 a) (fn2 g) eps)),
+      ("normbase", vecJ (normbase Float.sqrt K M (fn2 g))),
+      ("reorder_a", matJ ra), ("reorder_g", matJ rg),
+      ("badness", J.ofFloat (badness Float.sqrt N M K (fn2 s) (fn2 w) (fn2 a) (fn2 g) eps))])
+  | "hmf_iter" =>
+    let N ← J.fNat j "N"
+    let M ← J.fNat j "M"
+    let K ← J.fNat j "K"
+    let nIter ← J.fNat j "n_iter"
+    let s ← fMat j "s"
+    let w ← fMat j "w"
+    let g0 ← fMat j "g0"
+    let nn ← J.fBool j "nonneg"
+    let eps ← J.fOpt J.float j "eps"
+    let (a, g) := iterate Float.sqrt solveGE jacobi N M K nIter 128 (fn2 s) (fn2 w) (fn2 g0) nn eps
+    pure (Json.mkObj [("a", matJ a), ("g", matJ g)])
+  | "pca" =>
+    let nobj ← J.fNat j "nobj"
+    let npix ← J.fNat j "npix"
+    let niter ← J.fNat j "niter"
+    let nkeep ← J.fNat j "nkeep"
+    let flux ← fMat j "flux"
+    let ivar ← fMat j "ivar"
+    match pcaSolve Float.sqrt svdSym jacobi argsortF nobj npix niter nkeep (fn2 flux) (fn2 ivar) with
+    | .error e => pure (Json.mkObj [("err", Json.str e)])
+    | .ok r => pure (Json.mkObj [("usemask", J.ofArray J.ofNat r.usemask), ("pres", matJ r.pres),
+        ("eigenval", vecJ r.eigenval), ("acoeff", matJ r.acoeff), ("filtflux", matJ r.filtflux)])
+  | _ => throw s!"C15: unknown op {op}"
 
 end PydlVerif.Driver.C15
